@@ -620,6 +620,42 @@ Section Segments.
   Proof.
     intros n r H. unfold pre. rewrite firstn_map, firstn_seq' by auto. reflexivity.
   Qed.
+  Lemma seg_offsets' : forall n, (forall r, r < n -> a r + w <= length F) ->
+    starts (map (@length B) (seg_sel n)) =
+    flat_map (fun r => map (fun k => pre L k - pre L (a r) + sum (map seg_cnt (seq 0 r))) (seq (a r) w)) (seq 0 n).
+  Proof.
+    intros n H. rewrite seg_offsets by auto. apply flat_map_ext. intros r.
+    replace (seq (a r) w) with (map (fun k => a r + k) (seq 0 w))
+      by (rewrite <- seq_shift_add; f_equal; lia).
+    rewrite map_map. reflexivity.
+  Qed.
+
+  Lemma seg_offs_body : forall n, (forall r, r < n -> a r + w <= length F) ->
+    flat_map (fun r => map (fun k => pre L k - pre L (a r) + pre (map seg_cnt (seq 0 n)) r) (seq (a r) w)) (seq 0 n)
+      ++ [sum (map seg_cnt (seq 0 n))] =
+    0 :: cumsum (map (@length B) (seg_sel n)).
+  Proof.
+    intros n H. rewrite offs_starts, seg_offsets', seg_sum by auto. f_equal.
+    apply flat_map_ext_in. intros r Hr. apply in_seq in Hr. rewrite pre_seg_cnt by lia. reflexivity.
+  Qed.
+
+  Lemma seg_offs_last_special : forall n', (forall r, r < S n' -> a r + w <= length F) ->
+    flat_map (fun r => map (fun k => pre L k - pre L (a r) + pre (map seg_cnt (seq 0 (S n'))) r)
+                           (seq (a r) (if r <? n' then w else w + 1))) (seq 0 (S n')) =
+    0 :: cumsum (map (@length B) (seg_sel (S n'))).
+  Proof.
+    intros n' H. rewrite <- seg_offs_body by auto.
+    set (D := pre (map seg_cnt (seq 0 (S n')))).
+    assert (HD : D n' + seg_cnt n' = sum (map seg_cnt (seq 0 (S n')))).
+    { unfold D. rewrite pre_seg_cnt by lia. rewrite (seq_S n' 0), map_app, sum_app. simpl. lia. }
+    rewrite <- HD. clearbody D.
+    rewrite (seq_S n' 0), !flat_map_app. rewrite <- app_assoc. f_equal.
+    - apply flat_map_ext_in. intros r Hr. apply in_seq in Hr.
+      replace (r <? n') with true by (symmetry; apply Nat.ltb_lt; lia). reflexivity.
+    - cbn [flat_map]. rewrite !app_nil_r. simpl Nat.add. rewrite Nat.ltb_irrefl.
+      replace (w + 1) with (S w) by lia. rewrite seq_S, map_app. f_equal.
+      simpl. f_equal. unfold seg_cnt. lia.
+  Qed.
 End Segments.
 
 (* ------------------------------------------------------------------ *)
